@@ -398,17 +398,17 @@ theorem isSet_readback (P : Prog) (f : FieldDef) (v v' : GoVal) (w : WVal) (hd :
 theorem loop_rt (P : Prog) (rd : Ty → Bytes → Option (GoVal × Bytes)) (dmax : Nat) :
     ∀ (suf : List FieldDef) (svs : List GoVal) (ws : List (Nat × WVal)),
       toWFields P suf svs = .ok ws → depthFields ws ≤ dmax → IHs P rd dmax suf svs → WTFields P.structs suf svs → (∀ f ∈ suf, DfltOpt f) →
-      ∀ (pre : List FieldDef) (cpre csuf : List GoVal) (spre ssuf : List Bool) (gas : Nat) (r : Bytes),
+      ∀ (pre : List FieldDef) (cpre csuf : List GoVal) (spre ssuf : List Bool) (gas : Nat) (rest : Bytes),
         ((pre ++ suf).map idOf).Nodup → cpre.length = pre.length → spre.length = pre.length →
         csuf.length = suf.length → ssuf.length = suf.length → ws.length < gas → Unset suf csuf →
         ∃ csuf' ssuf', csuf'.length = suf.length ∧ ssuf'.length = suf.length ∧
-          readFieldsWith rd (pre ++ suf) gas (encFields ws ++ 0 :: r) (cpre ++ csuf) (spre ++ ssuf)
-            = readFieldsWith rd (pre ++ suf) (gas - ws.length) (0 :: r) (cpre ++ csuf') (spre ++ ssuf') ∧
+          readFieldsWith rd (pre ++ suf) gas (encFields ws ++ rest) (cpre ++ csuf) (spre ++ ssuf)
+            = readFieldsWith rd (pre ++ suf) (gas - ws.length) rest (cpre ++ csuf') (spre ++ ssuf') ∧
           toWFields P suf csuf' = .ok ws ∧ ReqSeen suf ssuf' := by
   intro suf
   induction suf with
   | nil =>
-    intro svs ws h _ _ _ _ pre cpre csuf spre ssuf gas r _ _ _ hc hs _ _
+    intro svs ws h _ _ _ _ pre cpre csuf spre ssuf gas rest _ _ _ hc hs _ _
     cases svs with
     | cons v vs => simp [toWFields] at h
     | nil =>
@@ -418,7 +418,7 @@ theorem loop_rt (P : Prog) (rd : Ty → Bytes → Option (GoVal × Bytes)) (dmax
       subst_vars
       exact ⟨[], [], rfl, rfl, by simp [encFields], by simp [toWFields], trivial⟩
   | cons f fs ih =>
-    intro svs ws h hdep hih hwt hdo pre cpre csuf spre ssuf gas r hnd hcp hsp hc hs hg hun
+    intro svs ws h hdep hih hwt hdo pre cpre csuf spre ssuf gas rest hnd hcp hsp hc hs hg hun
     cases svs with
     | nil => simp [toWFields] at h
     | cons v vs =>
@@ -440,7 +440,7 @@ theorem loop_rt (P : Prog) (rd : Ty → Bytes → Option (GoVal × Bytes)) (dmax
       rename_i hcond
       simp only [Bool.and_eq_true, decide_eq_true_eq, Bool.not_eq_true', ] at hcond
       obtain ⟨csuf', ssuf', hl1, hl2, hrun, htw, hrs⟩ :=
-        ih vs ws h hdep hih.2 hwtr (fun g hg => hdo g (by simp [hg])) (pre ++ [f]) (cpre ++ [c]) cs (spre ++ [b]) bs gas r
+        ih vs ws h hdep hih.2 hwtr (fun g hg => hdo g (by simp [hg])) (pre ++ [f]) (cpre ++ [c]) cs (spre ++ [b]) bs gas rest
           (by rw [← hassoc]; exact hnd) (by simp [hcp]) (by simp [hsp]) hc hs hg hun.2
       refine ⟨c :: csuf', b :: ssuf', by simp [hl1], by simp [hl2], ?_, ?_, ?_⟩
       · simp only [List.append_assoc, List.singleton_append] at hrun
@@ -467,9 +467,9 @@ theorem loop_rt (P : Prog) (rd : Ty → Bytes → Option (GoVal × Bytes)) (dmax
       | zero => simp at hg
       | succ g =>
       simp only [List.length_cons] at hg
-      obtain ⟨v', hrd, htw', hnn, hidv⟩ := hih.1 w hwtv hw (by omega) (encFields ws' ++ 0 :: r)
+      obtain ⟨v', hrd, htw', hnn, hidv⟩ := hih.1 w hwtv hw (by omega) (encFields ws' ++ rest)
       obtain ⟨csuf', ssuf', hl1, hl2, hrun, htw, hrs⟩ :=
-        ih vs ws' hws' (by omega) hih.2 hwtr (fun g hg => hdo g (by simp [hg])) (pre ++ [f]) (cpre ++ [v']) cs (spre ++ [true]) bs g r
+        ih vs ws' hws' (by omega) hih.2 hwtr (fun g hg => hdo g (by simp [hg])) (pre ++ [f]) (cpre ++ [v']) cs (spre ++ [true]) bs g rest
           (by rw [← hassoc]; exact hnd) (by simp [hcp]) (by simp [hsp]) hc hs (by omega) hun.2
       refine ⟨v' :: csuf', true :: ssuf', by simp [hl1], by simp [hl2], ?_, ?_, ?_⟩
       · have hc0 : w.ttype.code ≠ 0 := by have := TType.code_pos w.ttype; omega
@@ -724,7 +724,7 @@ theorem rt (P : Prog) (hP : SchemaOK P) (hv : P.validateSet = false) (v : GoVal)
         have := encFields_length ws; simp; omega
       obtain ⟨csuf', ssuf', hl1, hl2, hrun, htw, hrs⟩ :=
         loop_rt P (readTy P.structs f) f sd.fields fs ws h1 (by omega) hih hf hdo [] [] (initVals sd) [] (sd.fields.map fun _ => false)
-          ((encFields ws ++ [0] ++ r).length + 1) r (by simpa using hnd) rfl rfl (by simp [initVals]) (by simp) hlen hun
+          ((encFields ws ++ [0] ++ r).length + 1) (0 :: r) (by simpa using hnd) rfl rfl (by simp [initVals]) (by simp) hlen hun
       have hro := requiredOk_of_ReqSeen sd.fields ssuf' hrs
       have hgas : ∃ g, (encFields ws ++ [0] ++ r).length + 1 - ws.length = g + 1 := ⟨(encFields ws ++ [0] ++ r).length - ws.length, by omega⟩
       obtain ⟨g, hg⟩ := hgas
@@ -919,5 +919,33 @@ theorem depthList_le (xs : List WVal) : depthList xs ≤ (encList xs).length := 
   | cons x r => have := depth_le_len x; have := depthList_le r; simp [depthList, encList]; omega
 end
 
+
+end Gen.Std
+
+namespace Gen.Std
+open Wire Gen
+
+theorem skipW_encW (u : WVal) (rest : Bytes) (h : WF u) (hd : u.depth ≤ 64) :
+    skipW u.ttype.code (encW u ++ rest) = some rest := by
+  simp [skipW, TType.ofCode_code, decW_encW u 64 rest h hd]
+
+/-- one iteration of the Read loop on a field whose id the schema does not know: the field is
+consumed and the loop state (object under construction, isset flags) is untouched -/
+theorem read_step_unknown (rd : Ty → Bytes → Option (GoVal × Bytes)) (defs : List FieldDef) (g id : Nat)
+    (u : WVal) (rest : Bytes) (cur : List GoVal) (seen : List Bool) (hid : id < 256 ^ 2)
+    (hnf : findField defs id = none) (hwf : WF u) (hd : u.depth ≤ 64) :
+    readFieldsWith rd defs (g + 1) (u.ttype.code :: (be 2 id ++ (encW u ++ rest))) cur seen =
+      readFieldsWith rd defs g rest cur seen := by
+  have hc0 : u.ttype.code ≠ 0 := by have := TType.code_pos u.ttype; omega
+  simp only [readFieldsWith, hc0, if_false, readN_be 2 id _ hid, hnf, skipW_encW u rest hwf hd]
+
+/-- … and on a field whose id is known but whose wire type differs from the schema's -/
+theorem read_step_mistyped (rd : Ty → Bytes → Option (GoVal × Bytes)) (defs : List FieldDef) (g id j : Nat)
+    (f : FieldDef) (u : WVal) (rest : Bytes) (cur : List GoVal) (seen : List Bool) (hid : id < 256 ^ 2)
+    (hf : findField defs id = some (j, f)) (hne : f.ty.ttype.code ≠ u.ttype.code) (hwf : WF u) (hd : u.depth ≤ 64) :
+    readFieldsWith rd defs (g + 1) (u.ttype.code :: (be 2 id ++ (encW u ++ rest))) cur seen =
+      readFieldsWith rd defs g rest cur seen := by
+  have hc0 : u.ttype.code ≠ 0 := by have := TType.code_pos u.ttype; omega
+  simp only [readFieldsWith, hc0, if_false, readN_be 2 id _ hid, hf, hne, skipW_encW u rest hwf hd]
 
 end Gen.Std
